@@ -32,7 +32,7 @@ CLAIMED.update({
                   "those of the real code, not of an abstraction, so traces need no separate validation beyond the per-path native replay.",
              note=_SCHED_NOTE, technique="bounded symbolic model checking of the real scheduler loop (symx + z3), invariants on the real state dict",
              design_ref="DESIGN.md sec. 3 scheduler family"),
- "C04": dict(text="Solver-driven fault enumeration on the real loop: every failing subset, three exception classes incl. a BaseException subclass, three "
+ "C04": dict(text="Solver-driven fault enumeration on the real loop: every failing subset, four exception classes incl. a BaseException subclass and StopIteration, four "
                   "exception transports, rerun_exceptions_locally both ways; asserts type/message preservation, no dependent of a failed task executed, "
                   "no hang, finish callback once with failed=True.",
              note=_SCHED_NOTE, technique="bounded symbolic execution with solver-enumerated fault sets (symx + z3)", design_ref="DESIGN.md sec. 3 scheduler family"),
